@@ -170,6 +170,12 @@ def gen_layouts(rng, quick):
     for n in (31, 32, 33, 64, 65, 97):                          # page boundaries of FIEMAP (32 per page)
         lay.append(((2 * n + 1) * B, [(2 * i * B, (2 * i + 1) * B) for i in range(n)]))
         lay.append(((2 * n) * B - 100, [((2 * i + 1) * B, min((2 * i + 2) * B, 2 * n * B - 100)) for i in range(n)]))
+    # offsets beyond 2^31, 2^32 and 2^33 (sparse: a few blocks of data each)
+    G = 1 << 30
+    lay.append((5 * G + 123, [(0, B), (4 * G - B, 4 * G + B), (4 * G + G // 2, 4 * G + G // 2 + 3 * B), (5 * G, 5 * G + 123)]))
+    lay.append((8 * G + B, [(8 * G, 8 * G + B)]))
+    lay.append((2 * G + 5 * B, [(2 * G - B, 2 * G + 2 * B)]))
+    lay.append((4 * G + 2 * B, [(B, 2 * B), (4 * G, 4 * G + 2 * B)]))
     nrand = 30 if quick else 600
     for _ in range(nrand):
         nseg = rng.choice([0, 1, 2, 3, 5, 8, 20, 34, 70])
@@ -270,7 +276,7 @@ def run_files(ctx, out):
                 elif me[k][1:] != [0] + [x for t in impl for x in t]:
                     out.corr("R0-map_extents", dict(size=size, segs=segs, raw=raw), me[k], el)
             rng_list = [(s, e) for s, e, _ in impl]
-            ok, bad = fsutil.zero_outside(p, rng_list, size)
+            ok, bad = fsutil.zero_outside(p, rng_list, size, written=segs)
             if not ok:
                 out.violation("map_extents hides data: byte %d of a %d-byte file is non-zero and outside every reported extent"
                               % (bad, size), dict(fn="map_extents", size=size, data=segs, impl=impl, bad_offset=bad))
@@ -282,7 +288,7 @@ def run_files(ctx, out):
             mr = subprocess.run([ctx.bins["probe"], "merge"], input=mtxt, capture_output=True, text=True).stdout.strip()
             if mr.startswith("OK"):
                 merged = parse_exts(mr)
-                ok, bad = fsutil.zero_outside(p, [(s, e) for s, e, _ in merged], size)
+                ok, bad = fsutil.zero_outside(p, [(s, e) for s, e, _ in merged], size, written=segs)
                 if not ok:
                     out.violation("merged extent map hides data at byte %d" % bad,
                                   dict(fn="merge_extents(map_extents)", size=size, data=segs, impl=merged, bad_offset=bad))
@@ -306,7 +312,7 @@ def run_files(ctx, out):
                     pass
                 elif ms[k][1:] != [0] + nums:
                     out.corr("R0-segments", dict(size=size, segs=segs, kernel_layout=seeks[k][1]), ms[k], sl)
-            ok, bad = fsutil.zero_outside(p, impl, size)
+            ok, bad = fsutil.zero_outside(p, impl, size, written=segs)
             if not ok:
                 out.violation("segment walk hides data: byte %d non-zero outside reported segments" % bad,
                               dict(fn="next_sparse_segments", size=size, data=segs, impl=impl, bad_offset=bad))
@@ -324,7 +330,7 @@ def run_files(ctx, out):
 def run(ctx, out):
     out.rule = ("merge: all sorted lists over a small offset universe + random lists (sorted/adjacent/touching/overlapping/"
                 "unsorted/near-2^64); non-trivial = >=2 extents with a touching or adjacent pair. files: real ext4 files "
-                "with 0..97 data ranges (FIEMAP pages of 32), data at start/end, odd sizes; non-trivial = >=1 data range. "
+                "with 0..97 data ranges (FIEMAP pages of 32), data at start/end, odd sizes, data beyond 2^31 / 2^32 / 2^33 in sparse files of up to 8 GiB; non-trivial = >=1 data range. "
                 "distinct = distinct input list / layout.")
     run_merge(ctx, out)
     run_files(ctx, out)
